@@ -120,6 +120,15 @@ add("C04", "exploration",
     "Trusted: the forms on the other side of the differential, nlrun serialiser (functions compared as opaque). group_all compared as multiset.",
     "DESIGN.md §3 C04")
 
+add("C17", "translation_validation",
+    "property-based translation validation (Hypothesis-generated closed lambdas + enumerated scope-shape templates): frozen vs unfrozen vs frozen-after-reassignment, plus a static must-fail predicate",
+    "(freeze L)(args) must equal L(args) in value, output and outcome; after a script reassigning outer variables, swapping operator "
+    "aliases and changing precedences the frozen function must still behave as L did at freeze time; freeze must raise exactly for "
+    "lambdas with an unbound name / outer assignment / pop / swap / import / bare underscore injected into live or dead code.",
+    "Trusted: the interpreter's ordinary evaluation of the unfrozen lambda (other side of the differential), the generator's scope tracking. "
+    "Known findings F23/F24 (textual-order scope analysis of freeze) are classified by a static predicate on L.",
+    "DESIGN.md §3 C17")
+
 NOT_APPLICABLE = {
 }
 
